@@ -21,7 +21,7 @@
 (***************************************************************************)
 EXTENDS Naturals, Sequences, FiniteSets, TLC, Json
 
-CONSTANTS Names, DKeys, MaxOps, ThresholdChecked, ProbeRefusals, MinOps
+CONSTANTS Names, DKeys, MaxOps, ThresholdChecked, ProbeRefusals, MinOps, Deep
 
 Top == "targets"
 DRoles == {"d1", "d2"}
@@ -37,9 +37,24 @@ VARIABLES
   ops       \* the program so far
 vars == <<top, role, editing, dirty, signed, ops>>
 
-Init == /\ top = [names |-> {}, version |-> 1, sigs |-> {}]
-        /\ role = [d \in DRoles |-> NoRole]
-        /\ editing = Top /\ dirty = TRUE /\ signed = "no" /\ ops = <<>>
+\* Deep = TRUE: the program starts with a fixed prefix that builds targets -> d1 -> d2 (one key each, threshold 1,
+\* every name delegated) and signs both, so that the few operations that follow reach the second level
+DeepKey == CHOOSE k \in DKeys : TRUE
+AllK == {101, 102, 103} \cup DKeys
+DeepOps == << [op |-> "delegate_role", name |-> "d1", keys |-> {DeepKey}, thr |-> 1, m |-> Names],
+              [op |-> "sign_targets_editor", keys |-> AllK],
+              [op |-> "change_delegated_targets", role |-> "d1"],
+              [op |-> "delegate_role", name |-> "d2", keys |-> {DeepKey}, thr |-> 1, m |-> Names],
+              [op |-> "sign_targets_editor", keys |-> AllK] >>
+DeepRole(parent) == [on |-> TRUE, parent |-> parent, keys |-> {DeepKey}, thr |-> 1, m |-> Names,
+                     names |-> {}, version |-> 1, sigs |-> {DeepKey}]
+Init == IF Deep
+        THEN /\ top = [names |-> {}, version |-> 1, sigs |-> {103}]
+             /\ role = [d \in DRoles |-> IF d = "d1" THEN DeepRole("targets") ELSE DeepRole("d1")]
+             /\ editing = "none" /\ dirty = FALSE /\ signed = "no" /\ ops = DeepOps
+        ELSE /\ top = [names |-> {}, version |-> 1, sigs |-> {}]
+             /\ role = [d \in DRoles |-> NoRole]
+             /\ editing = Top /\ dirty = TRUE /\ signed = "no" /\ ops = <<>>
 
 Can == signed = "no" /\ Len(ops) < MaxOps
 Log(o) == ops' = Append(ops, o)
